@@ -123,6 +123,22 @@ class Check(PropertyCheck):
                 hdr = bytes([0, 0x80, oid]) if v == 4 else bytes([0, 0x80, 0xFF, 0x00, oid]) if v < 8 else bytes([0, 0x80, 0x01, oid & 0xFF, oid >> 8])
                 for pname in (None, "getEui64"):
                     cases.append({"v": v, "pending": pname, "data": (hdr + body).hex(), "kind": "foreign-id"})
+            # the same frame in ANOTHER version's header layout (an NCP / a bootstrap handler speaking the other format): a
+            # legacy-layout handler meets the extended layout [seq, fc, 0xFF, 0x00, id] -- 0xFF is not a frame id of its
+            # version, nothing may be dispatched or completed -- and an extended-layout handler meets the legacy one
+            for name in [n for n in ("stackStatusHandler", "getEui64", "getConfigurationValue", "getMfgToken", "version",
+                                     "incomingMessageHandler") if n in cls.COMMANDS]:
+                fr = valid_frame(inst, name, 0, rng, "rand")
+                cid = cls.COMMANDS[name][0]
+                body = fr[3 if v == 4 else 5:]
+                if v == 4:
+                    alts = [bytes([0, 0x80, 0xFF, 0x00, cid & 0xFF]) + body, bytes([0, 0x80, 0xFF, cid & 0xFF]) + body,
+                            bytes([0, 0x80, 0x01, cid & 0xFF, 0x00]) + body]
+                else:
+                    alts = [bytes([0, 0x80, cid & 0xFF]) + body]
+                for alt in alts:
+                    for pname in (None, "getEui64", name if not name.endswith("Handler") else "getEui64"):
+                        cases.append({"v": v, "pending": pname, "data": alt.hex(), "kind": "other-layout"})
             # late frames: the command they answer has already timed out / been cancelled (its entry is still registered
             # until the sequence number comes round again): the proper response, one with trailing bytes, invalidCommand,
             # another command's response -- none may raise or disturb what follows
